@@ -3,6 +3,7 @@
 package driver
 
 import (
+	"fmt"
 	"strings"
 	"unicode/utf8"
 
@@ -16,6 +17,7 @@ import (
 // rope by the verification engine.
 
 var (
+	_ = fmt.Sprintf
 	_ = strings.ReplaceAll
 	_ = utf8.ValidString
 	_ = verifspec.B2I
@@ -87,11 +89,79 @@ func Translate(s string) string {
 //@   ensures IsRegexpText(right) ==> result0 == left+" ~ "+right
 //@   ensures !IsRegexpText(right) ==> result0 == left+" SIMILAR TO "+Translate(right)
 
+// ---- ranges: the operand text "[lo, hi]" / "(lo, hi)" is taken apart again ---------------------------
+
+// RangeItems: the operand text without its brackets, split at commas.
+func RangeItems(right string) []string { return strings.Split(right[1:len(right)-1], ",") }
+
+// RangeLo / RangeHi: the two bound texts (only meaningful when there are exactly two items).
+func RangeLo(right string) string { return strings.Trim(RangeItems(right)[0], " ") }
+func RangeHi(right string) string { return strings.Trim(RangeItems(right)[1], " ") }
+
+// RangeInclusive: round brackets on both sides mean exclusive, everything else inclusive.
+func RangeInclusive(right string) bool { return !(right[0] == '(' && right[len(right)-1] == ')') }
+
+// RangeCmp: the comparison table for numeric bounds.  rawLo/rawHi are the bound texts
+// as written ('*' is an open end and drops that side), lo/hi the formatted numbers:
+// inclusive bounds use >= and <=, exclusive bounds > and <, both sides joined by AND.
+func RangeCmp(left, rawLo, rawHi, lo, hi string, inclusive bool) string {
+	if rawLo == "'*'" {
+		if inclusive {
+			return left + " <= " + hi
+		}
+		return left + " < " + hi
+	}
+	if rawHi == "'*'" {
+		if inclusive {
+			return left + " >= " + lo
+		}
+		return left + " > " + lo
+	}
+	if inclusive {
+		return left + " >= " + lo + " AND " + left + " <= " + hi
+	}
+	return left + " > " + lo + " AND " + left + " < " + hi
+}
+
+// RangeText: what the inline renderer writes for two bound texts: integers are compared
+// as integers, other numbers as numbers with two decimals, everything else with BETWEEN.
+func RangeText(left, lo, hi string, inclusive bool) string {
+	iMin, iMax, err := toInts(lo, hi)
+	if err == nil {
+		return RangeCmp(left, lo, hi, fmt.Sprintf("%d", iMin), fmt.Sprintf("%d", iMax), inclusive)
+	}
+	fMin, fMax, ferr := toFloats(lo, hi)
+	if ferr == nil {
+		return RangeCmp(left, lo, hi, fmt.Sprintf("%.2f", fMin), fmt.Sprintf("%.2f", fMax), inclusive)
+	}
+	return left + " BETWEEN " + lo + " AND " + hi
+}
+
+// IsNumberVal: the parameter is a number.
+func IsNumberVal(a any) bool {
+	switch a.(type) {
+	case int, float64, float32:
+		return true
+	}
+	return false
+}
+
+// RangeParamText: the parameterised text when a bound is a placeholder; it depends on the
+// kind of the first parameter only, never on a value.
+func RangeParamText(left, lo, hi string, inclusive, numeric bool) string {
+	if numeric {
+		return RangeCmp(left, lo, hi, lo, hi, inclusive)
+	}
+	return left + " BETWEEN " + lo + " AND " + hi
+}
+
 //@ func rang
-//@   props C03 C10 C13 C01
+//@   props C03 C02 C10 C13 C01
 //@   functional
 //@   requires len(right) >= 2
 //@   ensures  result1 != nil ==> result0 == ""
+//@   ensures[two-items] (result1 != nil) == (len(RangeItems(right)) != 2)
+//@   ensures[range-text] result1 == nil ==> result0 == RangeText(left, RangeLo(right), RangeHi(right), RangeInclusive(right))
 
 // ---- the recursive renderer --------------------------------------------------------------------------
 
@@ -326,6 +396,9 @@ func OneStringParam(params []any, v string) bool {
 //@   requires len(right) >= 2
 //@   requires[params-nonempty] len(params) >= 1
 //@   ensures  result1 != nil ==> result0 == ""
+//@   ensures[two-items] (result1 != nil) == (len(RangeItems(right)) != 2)
+//@   ensures[value-independent] result1 == nil && (RangeLo(right) == "?" || RangeHi(right) == "?") ==> result0 == RangeParamText(left, RangeLo(right), RangeHi(right), RangeInclusive(right), IsNumberVal(params[0]))
+//@   ensures[inline-bounds] result1 == nil && !(RangeLo(right) == "?" || RangeHi(right) == "?") ==> result0 == RangeText(left, RangeLo(right), RangeHi(right), RangeInclusive(right))
 
 //@ func (Base).RenderParam
 //@   props C04 C10 C13 C15 C01
